@@ -11,12 +11,14 @@ of `ExtR` at the protocol boundary), the proofs at a linearly ordered field.  Th
 floating-point operations is the order of the Python expressions, so that `Float` results are
 bit-identical to numpy's.
 
-The model follows the code *after* the repairs `tools/fixes/C12-beyond-R1-key.diff`
-(the segment `(1, inf]` gets the sort key `-inf` instead of `-1`; see `segKey`; committed),
-`tools/fixes/C12-signed-zero-upper.diff` (`load_collective.R`: an upper load `-0.0` counts as `+0.0`; see `cycR`),
-`tools/fixes/C12-matrix-index-layout.diff` (the matrix accessor pairs transformed ranges and counts by label for
-every order of the index levels; see `matrixTransform`) and `tools/fixes/C12-goodman-default-M2-keeps-operand.diff`
-(`M2 = M/3` without writing into the caller's parameter frame; value unchanged, see `goodmanDefault`).
+The model follows the code *after* the repairs (all committed in the repo) 1ef2d1a
+(the segment `(1, inf]` gets the sort key `-inf` instead of `-1`; see `segKey`),
+c28a67e (`load_collective.R`: an upper load `-0.0` counts as `+0.0`; see `cycR`),
+ab50530 and ef4f38d, which supersedes it (the matrix accessor pairs transformed ranges and counts by label for
+every order of the index levels; see `matrixTransform`), 9e46386
+(`M2 = M/3` without writing into the caller's parameter frame; value unchanged, see `goodmanDefault`) and
+3b0f832 (`HaighDiagram.five_segment` builds the segments row by row: slopes and `R12` / `R23` of one parameter row
+stay together; the model is per cycle and sees the segments of its own diagram row).
 -/
 import Model.Num
 
@@ -206,7 +208,7 @@ inductive Iface where
 /-- `x != x` -/
 def isNaN (x : α) : Bool := !(decide (x ≤ x))
 
-/-- `load_collective.R = (lower / (upper + 0.0)).fillna(0.0)` (after `tools/fixes/C12-signed-zero-upper.diff`: an upper
+/-- `load_collective.R = (lower / (upper + 0.0)).fillna(0.0)` (after repo commit c28a67e: an upper
 load of either signed zero is `+0.0`): division by zero spelled out, so that it means the same at every carrier. -/
 def cycR (ext : α → ExtR α) (lower upper : α) : ExtR α :=
   if upper ≤ 0.0 ∧ 0.0 ≤ upper then
